@@ -458,7 +458,11 @@ Record rcase := mkR {
   r_env_u : pel;
   r_distinct : list (option itree);
   r_idx : list nat;
-  r_raws : list (N * itree)
+  r_raws : list (N * itree);
+  r_walk : list (nat * nat)
+    (* ONE client switched through a sequence of settings: (setting, index into
+       r_distinct of the request it then sent); r_idx are the requests of FRESH
+       clients, one per setting *)
 }.
 
 Definition obs (c : rcase) (i : nat) : option itree :=
@@ -472,6 +476,12 @@ Definition s_xstq (i : nat) := Nat.leb 2 (Nat.modulo i 4).
 Definition model_out (c : rcase) (i : nat) : option itree :=
   let env := if s_xstq i then r_env_q c else r_env_u c in
   request_infoset (s_prefixes i) (s_pretty i) (r_wfix c) (default_ord env) env.
+
+(* SPEC: the request sent under a setting is determined by the setting (and the
+   call): whatever settings the client went through before, it sends what a
+   fresh client sends *)
+Definition req_history_independent (c : rcase) : bool :=
+  forallb (fun st => oitree_eqb true (nth (snd st) (r_distinct c) None) (obs c (fst st))) (r_walk c).
 
 (* the implementation produces what the model produces, setting by setting *)
 Definition req_agrees_on (sel : nat -> bool) (c : rcase) : bool :=
